@@ -21,6 +21,7 @@ import importlib
 import subprocess
 from concurrent.futures import ProcessPoolExecutor, as_completed
 import multiprocessing as mp
+import multiprocessing.connection
 
 VERIF = os.path.dirname(os.path.dirname(os.path.abspath(__file__)))
 OUT = os.environ.get('VERIF_OUT', VERIF)      # evidence/ and replays/ go here (mutant runs use a scratch dir)
@@ -85,6 +86,13 @@ def _iso_child(conn, a):
 
 def _run_isolated(arg_list, jobs, ctx):
     out, live, pending = [], [], list(arg_list)
+    if len(pending) > 50:
+        # third-party libraries (not the tree under test) are imported once here, so each forked run starts warm
+        for name in ('numpy', 'scipy.optimize', 'scipy.sparse', 'pandas', 'ecos', 'gurobipy', 'ortools.linear_solver.pywraplp'):
+            try:
+                importlib.import_module(name)
+            except Exception:
+                pass
     while pending or live:
         while pending and len(live) < jobs:
             a = pending.pop(0)
@@ -94,8 +102,9 @@ def _run_isolated(arg_list, jobs, ctx):
             cc.close()
             live.append((pr, pc, a, time.time()))
         still = []
+        mp.connection.wait([pc_ for _, pc_, _, _ in live], timeout=0.05)
         for pr, pc, a, t0 in live:
-            if pc.poll(0.02):
+            if pc.poll(0):
                 try:
                     out.append(pc.recv())
                 except EOFError:
@@ -237,8 +246,10 @@ def run_batch(mod_name, prop, tier, seed, n_runs, cfg=None, jobs=None, wall_cap=
     done = 0
     got = set()
     broken = False
+    if os.environ.get('VERIF_FORCE_ISOLATED'):
+        broken = True           # second attempt of the launcher after the first one was killed by a signal: one process per run
     with ProcessPoolExecutor(max_workers=jobs, mp_context=ctx, initializer=_worker_init) as ex:
-        futs = {ex.submit(_run_one, a): a for a in args}
+        futs = {} if broken else {ex.submit(_run_one, a): a for a in args}
         try:
             for fu in as_completed(futs, timeout=wall_cap):
                 try:
